@@ -273,6 +273,14 @@ impl Router {
                         {
                             continue;
                         }
+                        // RFC 9113 §5.1.2: until the backend's SETTINGS arrive its
+                        // MAX_CONCURRENT_STREAMS is unknown. Every request admitted
+                        // now has its HEADERS sent once those SETTINGS are
+                        // acknowledged, whatever limit they carry, so only the
+                        // request the connection was opened for rides on it.
+                        if !h2c.peer_settings_received && stream_count > 0 {
+                            continue;
+                        }
                         if stream_count < best_h2_stream_count {
                             best_h2_stream_count = stream_count;
                             reuse_token = Some(*token);
@@ -280,10 +288,12 @@ impl Router {
                     }
                 }
                 (true, Position::Client(other_cluster_id, _, BackendStatus::Connecting(_))) => {
-                    // Only use a connecting backend if no connected one was found
+                    // Only use a connecting backend if no connected one was found,
+                    // and only while it carries no request yet: its
+                    // MAX_CONCURRENT_STREAMS is unknown (see above).
                     if *other_cluster_id == cluster_id
                         && best_h2_stream_count == usize::MAX
-                        && matches!(backend, Connection::H2(_))
+                        && matches!(backend, Connection::H2(h2c) if h2c.streams.is_empty())
                     {
                         reuse_token = Some(*token)
                     }
